@@ -21,6 +21,9 @@ GENFILE = (" Further tie (regenerated on every run): translate/file2coq.py trans
            "the model's step from every reachable state, GenFileC.v that the translated parser of a file TEXT equals the model's for every text and restates the file-level "
            "theorems for it; GenDbP.v / GenDbC.v: the translated get_random is the model's lookup for every pick, the translated load refines the atomic load specification "
            "(HTTPSignature.parse is bound to the model's here and proved equal to its own translation by the http2coq tie).")
+GENEFF = (" Further tie (regenerated on every run): translate/eff2coq.py derives from ALL modules of /repo's CURRENT source which caller-owned and module-level objects each public call may "
+          "write (fail-closed may-write analysis); coq/Gen/GenEffP.v proves from the emitted data that the fingerprint calls write nothing, that no call writes a module-level object other than the "
+          "random generator, that Database.load writes only its own object and the database readers nothing (section 16g of DESIGN.md).")
 GENHTTPX = (" Further tie (regenerated on every run): translate/http2coq.py translates read.py (first line, header lines with continuations, read_payload), header.py / http.py "
             "(lower_name, _get_header_value, software, from_buffer) and signatures/http.py (HTTPSignature.parse, _parse_headers, header_names) from /repo's CURRENT source; "
             "coq/Gen/GenHttpP.v proves them equal to the model for all payloads / signature texts (the two regexes and h11's line extraction are assumed primitives, read literally), "
@@ -116,7 +119,7 @@ CLAIMED = {
              tech="Coq proof (printer/parser round trips) + differential correspondence, quirk sweep (thorough: all 2^17)", ref="DESIGN.md section 4 C18"),
  "C11": dict(text="Coq theorems: the line-by-line load (local database, commit after the last line) refines the atomic specification "
                   "load_spec; at EVERY line-read point the visible version is the one installed before the load, only the observation after the last line "
-                  "shows the new one; failed load preserves, no accumulation, idempotence, never-loaded = no section. " + TIE + GENFILE + " A wrapped file iterator "
+                  "shows the new one; failed load preserves, no accumulation, idempotence, never-loaded = no section. " + TIE + GENFILE + GENEFF + " A wrapped file iterator "
                   "snapshots the whole shared database at every line read of every load in histories of good/bad/unreadable files (fault at every line).",
              note="Trusted: as C09; observation granularity = line-read point (as the property states); unreadable paths are checked on the "
                   "implementation only. No axioms.",
@@ -139,7 +142,7 @@ CLAIMED = {
              tech="Coq frame lemma over a heap model + effect summaries regenerated from the source and proved to agree with it (partial) + runtime before/after object monitor", ref="DESIGN.md section 4 C12, section 7, section 16g"),
  "C16": dict(text="Coq theorems over the API state machine (state = loaded database): the output of a call after ANY history equals its history-free value "
                   "on the database of the last successful load; histories with the same last load agree; non-load calls preserve the database; repeating a "
-                  "call repeats its result. " + TIE + GEN + " For C16 the translated pieces are composed end to end (Gen/GenApiC.v: gen_run_ops_eq, C16_translated_history). Histories of 30 interleaved calls (reloads, raw / freshly parsed / REUSED parsed packets with "
+                  "call repeats its result. " + TIE + GEN + GENEFF + " For C16 the translated pieces are composed end to end (Gen/GenApiC.v: gen_run_ops_eq, C16_translated_history). Histories of 30 interleaved calls (reloads, raw / freshly parsed / REUSED parsed packets with "
                   "varying syn_mss and max_dist, three buffer types, impersonation by label with extra_hops, sibling packets, probe records that force lazy "
                   "state) run in one process and every result is compared with the model's pure value.",
              note="Trusted: as C01/C03/C09 (the machine composes those models); module-level state of the Python runtime is only observable through the "
